@@ -15,7 +15,9 @@ import (
 // valueResolver maps variables to literals; Driver/C09.lean `valueResolve` holds the same table.
 type valueResolver struct{}
 
-var valueVars = map[string]string{"x": "2", "y": "3", "z": "0", "h": "0.5", "n": "-4", "foo.bar": "7", "a_1": "1.25", "sp": " 6 "}
+var valueVars = map[string]string{"x": "2", "y": "3", "z": "0", "h": "0.5", "n": "-4", "foo.bar": "7", "a_1": "1.25", "sp": " 6 ",
+	"e": "1e-2", "neg": "-3", "big": "123456789012345678901234567890", "ws": "  ", "str": "abc", "expr": "22 + 2", "bool": "true",
+	"paren": "(1)", "comma": "1,2", "inf": "Inf", "max4": "922337203685477.5807", "tiny": "0.00001", "fn": "abs(-1)", "mid": "16777217.000000001"}
 
 func (valueResolver) ResolveVariable(name string) string { return valueVars[name] }
 
@@ -39,6 +41,12 @@ func canon(v any, err error) string {
 		return fmt.Sprintf("d4:%d", int64(x))
 	case f64.Int[fixed.D2]:
 		return fmt.Sprintf("d2:%d", int64(x))
+	case f64.Int[fixed.D1]:
+		return fmt.Sprintf("d1:%d", int64(x))
+	case f64.Int[fixed.D6]:
+		return fmt.Sprintf("d6:%d", int64(x))
+	case f64.Int[fixed.D16]:
+		return fmt.Sprintf("d16:%d", int64(x))
 	default:
 		return fmt.Sprintf("%T:%v", v, v)
 	}
@@ -57,6 +65,12 @@ type config struct {
 	// fromBool is the harness's OWN conversion of a comparison/logical result that is used as a number:
 	// true is the number 1 of the evaluator's type (f64.From[T,int](1), not the raw fixed-point 1), false is 0.
 	fromBool func(b bool) any
+	// libFrom is the library's exported operand conversion (eval.FixedFrom), judged against conv / fromBool
+	libFrom func(v any) (any, error)
+	// bare builds the same evaluator without a Resolver
+	bare func() *eval.Evaluator
+	// ref is the independent arithmetic of the evaluator's number type (ref.go)
+	ref refNum
 }
 
 func fixedBool[T fixed.Dx](b bool) any {
@@ -83,6 +97,18 @@ func float32Bool(b bool) any {
 // opaque is a text the evaluator's number type cannot represent: the library sees "not a number" whatever its own
 // string conversion would say, and prints it like the string it is in the string fall-backs of == < + ….
 type opaque string
+
+func fixedLibFrom[T fixed.Dx](v any) (any, error) {
+	x, err := eval.FixedFrom[T](v)
+	return x, err
+}
+
+func fixedCfg[T fixed.Dx](name string, zero bool) *config {
+	return &config{name: name, zero: zero,
+		fresh:  func() *eval.Evaluator { return eval.NewFixedEvaluator[T](valueResolver{}, zero) },
+		bare:   func() *eval.Evaluator { return eval.NewFixedEvaluator[T](nil, zero) },
+		isZero: fixedIsZero[T], conv: fixedConv[T], fromBool: fixedBool[T], ref: fixedRef[T]{}, libFrom: fixedLibFrom[T]}
+}
 
 func fixedConv[T fixed.Dx](s string) (any, bool) {
 	v, err := f64.FromString[T](s)
@@ -137,20 +163,24 @@ func floatIsZero(bits int) func(v any) (bool, bool) {
 
 func configs() []*config {
 	cs := []*config{
-		{name: "d4z", zero: true, fresh: func() *eval.Evaluator { return eval.NewFixedEvaluator[fixed.D4](valueResolver{}, true) },
-			isZero: fixedIsZero[fixed.D4], conv: fixedConv[fixed.D4], fromBool: fixedBool[fixed.D4]},
-		{name: "d4e", zero: false, fresh: func() *eval.Evaluator { return eval.NewFixedEvaluator[fixed.D4](valueResolver{}, false) },
-			isZero: fixedIsZero[fixed.D4], conv: fixedConv[fixed.D4], fromBool: fixedBool[fixed.D4]},
-		{name: "d2z", zero: true, fresh: func() *eval.Evaluator { return eval.NewFixedEvaluator[fixed.D2](valueResolver{}, true) },
-			isZero: fixedIsZero[fixed.D2], conv: fixedConv[fixed.D2], fromBool: fixedBool[fixed.D2]},
+		fixedCfg[fixed.D4]("d4z", true),
+		fixedCfg[fixed.D4]("d4e", false),
+		fixedCfg[fixed.D2]("d2z", true),
+		fixedCfg[fixed.D1]("d1e", false),
+		fixedCfg[fixed.D6]("d6z", true),
+		fixedCfg[fixed.D16]("d16e", false),
 		{name: "f64z", zero: true, fresh: func() *eval.Evaluator { return eval.NewFloatEvaluator[float64](valueResolver{}, true) },
-			isZero: floatIsZero(64), conv: float64Conv, fromBool: float64Bool},
+			bare:   func() *eval.Evaluator { return eval.NewFloatEvaluator[float64](nil, true) },
+			isZero: floatIsZero(64), conv: float64Conv, fromBool: float64Bool, ref: floatRef[float64]{}},
 		{name: "f64e", zero: false, fresh: func() *eval.Evaluator { return eval.NewFloatEvaluator[float64](valueResolver{}, false) },
-			isZero: floatIsZero(64), conv: float64Conv, fromBool: float64Bool},
+			bare:   func() *eval.Evaluator { return eval.NewFloatEvaluator[float64](nil, false) },
+			isZero: floatIsZero(64), conv: float64Conv, fromBool: float64Bool, ref: floatRef[float64]{}},
 		{name: "f32e", zero: false, fresh: func() *eval.Evaluator { return eval.NewFloatEvaluator[float32](valueResolver{}, false) },
-			isZero: floatIsZero(32), conv: float32Conv, fromBool: float32Bool},
+			bare:   func() *eval.Evaluator { return eval.NewFloatEvaluator[float32](nil, false) },
+			isZero: floatIsZero(32), conv: float32Conv, fromBool: float32Bool, ref: floatRef[float32]{}},
 		{name: "f32z", zero: true, fresh: func() *eval.Evaluator { return eval.NewFloatEvaluator[float32](valueResolver{}, true) },
-			isZero: floatIsZero(32), conv: float32Conv, fromBool: float32Bool},
+			bare:   func() *eval.Evaluator { return eval.NewFloatEvaluator[float32](nil, true) },
+			isZero: floatIsZero(32), conv: float32Conv, fromBool: float32Bool, ref: floatRef[float32]{}},
 	}
 	for _, c := range cs {
 		c.reused = c.fresh()
@@ -162,6 +192,9 @@ func configs() []*config {
 type node struct {
 	kind     byte // 'N', 'O', 'F', 'T'; 'G' = call with the model's trees of its arguments; 'X' 'M' 'P' = argument that is rejected / empty / a model panic
 	kids     []*node
+	done     bool // the argument tree has been evaluated (once, for the library's function and for the reference)
+	val      any
+	err      error
 	un, op   string
 	hasUn    bool
 	hasOp    bool
@@ -236,16 +269,26 @@ func (w *walker) operator(sym string) *eval.Operator {
 
 // num converts a text operand with the harness's own conversion: a number of the evaluator's type, or opaque.
 func (w *walker) num(v any) any {
+	var out any = v
 	switch a := v.(type) {
 	case string:
 		if x, good := w.c.conv(a); good {
-			return x
+			out = x
+		} else {
+			out = opaque(a)
 		}
-		return opaque(a)
 	case bool:
-		return w.c.fromBool(a)
+		out = w.c.fromBool(a)
 	}
-	return v
+	if w.c.libFrom != nil { // the exported eval.FixedFrom, called directly
+		got, err := w.c.libFrom(v)
+		if _, bad := out.(opaque); bad || !w.c.ref.isNum(out) {
+			w.judge("FixedFrom", got, err, nil, errRef, true, false)
+		} else {
+			w.judge("FixedFrom", got, err, out, nil, true, false)
+		}
+	}
+	return out
 }
 
 // binArgs prepares the operands of a binary operator: values when every text operand is a number of the evaluator's
@@ -270,10 +313,19 @@ func (w *walker) binArgs(l, r any) (any, any) {
 func (w *walker) unary(n *node, v any) (any, error) {
 	if n.hasUn {
 		if o := w.operator(n.un); o.EvaluateUnary != nil {
-			return o.EvaluateUnary(w.num(v))
+			return w.applyUnary(o, v)
 		}
 	}
 	return v, nil
+}
+
+// applyUnary calls the library's unary operator on the harness-converted operand and judges it by the reference.
+func (w *walker) applyUnary(o *eval.Operator, v any) (any, error) {
+	got, err := o.EvaluateUnary(w.num(v))
+	if want, wantErr, known := w.refUnary(o.Symbol, v); known {
+		w.judge("unary "+o.Symbol, got, err, want, wantErr, true, false)
+	}
+	return got, err
 }
 
 var singleArg = map[string]bool{"abs": true, "cbrt": true, "ceil": true, "exp": true, "exp2": true, "floor": true, "log": true,
@@ -294,12 +346,9 @@ func (w *walker) call(n *node) (any, error) {
 	e2 := &eval.Evaluator{Operators: w.ev.Operators, Functions: map[string]eval.Function{
 		"v": func(_ *eval.Evaluator, arguments string) (any, error) {
 			i := hx.Atoi(strings.TrimSpace(arguments))
-			v, err := w.walk(n.kids[i])
+			v, err := w.kid(n, i)
 			if err != nil {
 				return nil, err
-			}
-			if v == nil {
-				return nil, errInvalid
 			}
 			switch {
 			case n.name != "if": // a number is expected: texts and booleans are converted by the harness
@@ -337,6 +386,9 @@ func (w *walker) walk(n *node) (any, error) {
 		return nil, errInvalid
 	case 'G':
 		v, err := w.call(n)
+		if want, wantErr, exact, known := w.refCall(n); known {
+			w.judge("function "+n.name, v, err, want, wantErr, exact, false)
+		}
 		if err != nil {
 			return nil, err
 		}
@@ -365,8 +417,12 @@ func (w *walker) walk(n *node) (any, error) {
 		if o.Evaluate == nil {
 			return nil, errInvalid
 		}
+		want, wantErr, exact, zeroDiv := w.refBinary(n.op, l, r)
 		l, r = w.binArgs(l, r)
 		v, err := o.Evaluate(l, r)
+		if want != nil || wantErr != nil {
+			w.judge("operator "+n.op, v, err, want, wantErr, exact, zeroDiv)
+		}
 		if n.op == "/" || n.op == "%" {
 			lok, _ := w.c.isZero(l)
 			if rnum, rzero := w.c.isZero(r); lok && rnum && rzero {
@@ -391,9 +447,9 @@ func (w *walker) walk(n *node) (any, error) {
 	}
 	if v != nil {
 		if n.hasUn && w.operator(n.un).EvaluateUnary != nil {
-			v, err = w.operator(n.un).EvaluateUnary(w.num(v))
+			v, err = w.applyUnary(w.operator(n.un), v)
 		} else if n.hasOp && w.operator(n.op).EvaluateUnary != nil {
-			v, err = w.operator(n.op).EvaluateUnary(w.num(v))
+			v, err = w.applyUnary(w.operator(n.op), v)
 		}
 		if err != nil {
 			return nil, err
@@ -405,14 +461,22 @@ func (w *walker) walk(n *node) (any, error) {
 	return v, nil
 }
 
-var poison = []string{"2 * - - 3", "3 * foo(1", "7 - nope(1)", "(1 + ", "1 + 2)", "4 + 5", "-()", "max(1, "}
+// poison: expressions rejected in every way the evaluator can reject (parse errors with operands / operators / an open
+// parenthesis / a pending sign left on the stacks, evaluation errors at every depth), and accepted ones in between.
+var poison = []string{"2 * - - 3", "3 * foo(1", "7 - nope(1)", "(1 + ", "1 + 2)", "4 + 5", "-()", "max(1, ", "()(", "(1)(2)", "1 + (2 * (3 - ",
+	"1 ! 2", "5 * $", "5 * $undefined", "5 - $ws", "1 / 0", "2 * (3 % 0)", "abs(1 / 0)", "max(1, 2, nope(3))", "sqrt(abc) + 1", "1 - abc", "9 - -",
+	"\v+1", "3 * (2 + 1", "if(1 / 0, 1, 2)", "2 ^ (1 - x) -", ")", "1 + 1", "max(min(1, 2) + min(3, 4), 5)", "- - -", "1 2 3 +", "abs(2", "((((1"}
 
 // check compares the real evaluator (reused and fresh) with the walk of the model's tree.
-func (c *config) check(expr string, tree []string) string {
+func (c *config) check(expr string, tree []string, thorough bool) string {
 	fresh := canon(c.fresh().Evaluate(expr))
 	// self-contained reuse check: one evaluator first digests rejected and accepted expressions, then this one twice
+	// (the whole list for one configuration per line, the first eight for the others)
 	local := c.fresh()
-	for _, p := range poison {
+	for i, p := range poison {
+		if i >= 8 && !thorough {
+			break
+		}
 		_, _ = local.Evaluate(p)
 	}
 	first := canon(local.Evaluate(expr))
@@ -423,6 +487,17 @@ func (c *config) check(expr string, tree []string) string {
 	reused := canon(c.reused.Evaluate(expr))
 	if reused != fresh {
 		return fmt.Sprintf("FAIL %s: reused evaluator gives %s, fresh evaluator %s", c.name, reused, fresh)
+	}
+	// EvaluateNew on a used evaluator is a fresh evaluation and leaves the evaluator's own state alone
+	if viaNew := canon(c.reused.EvaluateNew(expr)); viaNew != fresh {
+		return fmt.Sprintf("FAIL %s: EvaluateNew gives %s, a fresh evaluator %s", c.name, viaNew, fresh)
+	}
+	// without a Resolver: the same result when no `$` occurs, an error (never a panic) when one is substituted
+	if c.bare != nil {
+		noRes := canon(c.bare().Evaluate(expr))
+		if !strings.Contains(expr, "$") && noRes != fresh {
+			return fmt.Sprintf("FAIL %s: without a resolver %s, with one %s, and the expression has no variable", c.name, noRes, fresh)
+		}
 	}
 	var want string
 	switch tree[0] {
